@@ -1,4 +1,6 @@
 """C08 world check (see DESIGN.md section 2, C08)."""
+import copy
+
 from checks.worldcheck import Spec, replayed_delivery
 
 PROP = "C08"
@@ -27,14 +29,39 @@ def explicit(tier, seed):
                 i += 1
 
 
+def dense_start_cases(tier, seed):
+    """Many branches of one map/parallel start at the same moment while every statement of the executor is a likely pre-emption
+    point: whatever per-branch state the executor keeps while a branch is being entered must not leak into a sibling."""
+    import random
+
+    rng = random.Random(seed + 23)
+    for j in range(8 if tier == "quick" else 60):
+        nb = rng.choice([4, 6, 8, 12])
+        kind = rng.choice(["par", "map"])
+        inner = [{"k": "step", "val": 1}, {"k": "step", "val": 2}]
+        if j % 3 == 2:
+            inner = [{"k": "child", "body": [{"k": "step", "val": 1}]}, {"k": "step", "val": 2}]
+        if kind == "par":
+            node = {"k": "par", "branches": [{"body": copy.deepcopy(inner)} for _ in range(nb)], "cfg": {"preset": "all_completed", "max_conc": rng.choice([None, nb // 2])}}
+        else:
+            node = {"k": "map", "items": list(range(nb)), "body": inner, "cfg": {"max_conc": rng.choice([None, nb // 2])}}
+        yield {"label": "dense-branch-start", "prog": {"body": [{"k": "step", "val": 0}, node, {"k": "step", "val": "end"}]}, "prog_seed": 8990 + j, "pattern": {"p": "plain"},
+               "opts": {"perturb": {"p": rng.choice([0.3, 0.6]), "sleep_p": 0.6, "max_sleep": 0.002, "seed": seed * 17 + j, "files": ["executor.py"]}}}
+
+
+def explicit_all(tier, seed):
+    yield from explicit(tier, seed)
+    yield from dense_start_cases(tier, seed)
+
+
 SPEC = Spec(
     PROP,
     level="exploration",
     rule="random programs (all nine operation kinds, nesting<=3) x {uninterrupted with random pagination/latency, every single "
-    "crash point of a small-program corpus, random multi-crash, asynchronous SIGKILL, yield injection}; bijection structural-path <-> Id over every update of every invocation; ParentId equals the id of the enclosing context; across all executions of all programs in the worker, ids are a function of the position chain only (metamorphic, no re-implementation of the hash). Explicit slice: the same / equal callables at several parallel positions; 2-16 user threads starting operations on one shared context at once (single invocation; collision-freedom and parent links only). Non-trivial = positions recorded. "
+    "crash point of a small-program corpus, random multi-crash, asynchronous SIGKILL, yield injection}; bijection structural-path <-> Id over every update of every invocation; ParentId equals the id of the enclosing context; across all executions of all programs in the worker, ids are a function of the position chain only (metamorphic, no re-implementation of the hash). Explicit slice: the same / equal callables at several parallel positions; 2-16 user threads starting operations on one shared context at once (single invocation; collision-freedom and parent links only). 4-12 branches started at once under dense yield injection in the executor. Non-trivial = positions recorded. "
     "A class = (program shape hash, interruption pattern, event kind at which the crash landed).",
     deciding=lambda r: True,
-    explicit=explicit,
+    explicit=explicit_all,
 )
 cases = SPEC.cases
 run_case = SPEC.run_case
